@@ -79,6 +79,7 @@ class FakeIO:
         self.waiter = None
         self.connect_fut = None
         self.hung_reads = 0
+        self.partial = False
 
     def connected(self):
         self.tid = self.rig.next_tid
@@ -127,9 +128,9 @@ class FakeIO:
         message (of its header for a header error), however many reads that takes"""
         if a == 0:
             n = 19 if str(arg).startswith('Header') else len(data)
-            self.labels.append([n, name, arg])
+            self.labels.append([n, name, arg, n, False])
             if len(data) > n:
-                self.labels.append([len(data) - n, None, None])
+                self.labels.append([len(data) - n, None, None, len(data) - n, False])
         self.rx += data[a:b]
         self.wake()
 
@@ -137,9 +138,9 @@ class FakeIO:
         self.rx += data
         # a header error is detected once the 19 header octets are read: the event is logged there
         n = 19 if str(arg).startswith('Header') else len(data)
-        self.labels.append([n, name, arg])
+        self.labels.append([n, name, arg, n, False])
         if len(data) > n:
-            self.labels.append([len(data) - n, None, None])
+            self.labels.append([len(data) - n, None, None, len(data) - n, False])
         self.wake()
 
 
@@ -181,9 +182,18 @@ class VLoop(asyncio.SelectorEventLoop):
                     io.labels[0][0] -= take
                     left -= take
                     if io.labels[0][0] == 0:
-                        _, name, arg = io.labels.pop(0)
+                        name, arg = io.labels[0][1], io.labels[0][2]
+                        io.labels.pop(0)
                         if name is not None:
                             rig.ev(name, arg)
+                            io.partial = False
+                if io.labels and not io.rx:
+                    head = io.labels[0]
+                    if head[1] is not None and 0 < head[0] < head[3] and not head[4]:
+                        # the reader holds the first octets of a message whose rest has not arrived
+                        head[4] = True
+                        io.partial = True
+                        rig.ev('RecvPart', head[2])
                 return n
             if io.err:
                 rig.ev('SockErr')
@@ -192,7 +202,13 @@ class VLoop(asyncio.SelectorEventLoop):
                 rig.ev('Eof')
                 return 0
             io.waiter = self.create_future()
-            await io.waiter
+            try:
+                await io.waiter
+            except asyncio.CancelledError:
+                if io.partial and not io.closed:
+                    # the read is given up while it holds part of a message: those octets are gone
+                    rig.log.append(['dropped', io.tid, rig.fsm()])
+                raise
 
     async def sock_sendall(self, io, data):
         if io.closed:
@@ -385,10 +401,34 @@ class Rig:
 
         patch(peermod.Peer, '_read_open', _read_open)
 
+        import sys as _sys
+
+        import exabgp.rib.outgoing as ribmod
+
+        real_replace_reload = ribmod.OutgoingRIB.replace_reload
+
+        def replace_reload(rib, previous, current):
+            if rig.fsm() == ESTABLISHED:
+                rig.ev('Handover')  # Peer._main adopts the reloaded neighbor at the top of an iteration
+            return real_replace_reload(rib, previous, current)
+
+        patch(ribmod.OutgoingRIB, 'replace_reload', replace_reload)
+
+        real_cancel_read = peermod.Peer._cancel_read
+
+        def _cancel_read(peer):
+            if _sys.exc_info()[0] is None and peer._teardown:
+                rig.ev('LoopExit')  # the loop is left for the requested teardown (no exception in flight)
+            return real_cancel_read(peer)
+
+        patch(peermod.Peer, '_cancel_read', _cancel_read)
+
         real_pending = peermod.Peer._has_pending_work
 
         def _has_pending_work(peer, new_routes, message):
             res = real_pending(peer, new_routes, message)
+            if not res and peer._teardown:
+                rig.ev('LoopPause')  # the iteration ends with the 1 ms pause, after which the loop looks at _teardown
             if rig.race is not None and not res:
                 # the iteration ends with `await asyncio.sleep(0.001)`: the scripted octets arrive in the middle
                 # of that pause, i.e. after the 100 ms read wait returned and before the loop looks at _teardown
